@@ -52,7 +52,9 @@ TEXT = {
         text=("Theorem matchPathC_eq_spec: on the model the correspondence validates, match_path (longest-string-prefix trie lookup, component check, parent hop) equals git-style "
               "evaluation over the component-wise ancestors, nearest first, then global — for every filter, path and file type; corollaries spec_congr / spec_keys_congr / "
               "scoping_law: files of non-ancestor directories (test/ vs tests/) never change a verdict, negations included; goOld_ne_spec keeps the kernel-checked witness that "
-              "the pre-repair loop violated it. The proof is parametric in the per-node verdict, so it does not rest on the glob model."),
+              "the pre-repair loop violated it. The proof is parametric in the per-node verdict, so it does not rest on the glob model. For the concrete matcher the commonest line is "
+              "characterised completely (Wx/Glob/GlobPath.lean, name_ignores_iff): the line `name` ignores exactly the relative paths that HAVE a component `name` (the path or any "
+              "directory above it, matched_path_or_any_parents), for every clean name and every path — so `test` never touches `tests/x` at the matcher level either."),
         note=COMMON_NOTE + "Modelled: radix_trie::get_ancestor, the ignore crate's gitignore matcher (validated by the glob stream)."),
     "C11": dict(
         design_ref="§7 C11",
@@ -118,7 +120,10 @@ TEXT = {
         technique="Lean 4 invariant proof over every sequence of configuration changes (made while the worker is parked or from inside its own watch/unwatch calls): quiescent => registered = believed = configured; differential execution of the real fs worker against a recording watcher (hook H2)",
         text=("Theorem c13_converges: for the repaired worker and no injected faults, in every reachable quiescent state (no wake-up pending, change counter seen = current) the active watcher has "
               "the configured kind, the registered set and the worker's belief equal the configured path set with the configured modes, and there is no watcher iff the set is empty; "
-              "f8a_witness / f8b_witness keep the kernel-checked counterexamples for the pre-repair code. Partial: with failing watch/unwatch calls the model is tied by correspondence only."),
+              "f8a_witness / f8b_witness keep the kernel-checked counterexamples for the pre-repair code. With failing registrations (iteration_faults): the others are registered, the belief stays in sync "
+              "(the failed path is retried), and the runtime errors of one iteration are exactly one per path the failing attempts' notify errors name, one when an error names none "
+              "(errors_per_failing_attempt; notify_multi_path_errors is inside the model). The stream covers kind-only changes (Config::file_watcher alone, also from inside a watch call), "
+              "nested watched paths, scripts that end without a healing notification, and checks the kind of the ACTIVE watcher at the end. Partial: unwatch failures are tied by correspondence only."),
         note=COMMON_NOTE + "Modelled: tokio Notify, the notify back-ends (recording watcher), HashSet iteration order (call logs compared sorted)."),
     "C15": dict(
         design_ref="§7 C15",
